@@ -30,9 +30,11 @@ OTHER_OPS = ["kemeny_score", "description", "str", "parcons_partition", "parfron
 
 def _plan(tier, seed):
     if tier == "quick":
-        return [{"n_cases": 110, "mode": "A", "hashseed": i % 3} for i in range(8)]
+        return [{"n_cases": 110, "mode": "A", "hashseed": i % 3} for i in range(8)] + \
+               [{"n_cases": 2, "mode": "A", "params": {"xlarge": prof}, "hashseed": i % 2} for i, prof in enumerate(["cells", "cells", "wide"])]
     return [{"n_cases": 1600, "mode": "A", "hashseed": i % 4} for i in range(14)] + \
-           [{"n_cases": 500, "mode": "AD", "hashseed": i} for i in range(2)]
+           [{"n_cases": 500, "mode": "AD", "hashseed": i} for i in range(2)] + \
+           [{"n_cases": 6, "mode": "A", "params": {"xlarge": prof}, "hashseed": i} for i, prof in enumerate(["cells", "cells", "wide", "tall"])]
 
 def plan(tier, seed):
     """+ one shard running the repository's own tests under the monitors (vf/pytest_plugin.py)"""
@@ -42,7 +44,21 @@ def plan(tier, seed):
     return shards
 
 
+LARGE_OPS = ["Borda", "Copeland", "KwikSort", "BioConsert", "BioCo", "BioConsert[Borda]", "ParCons", "get_positions",
+             "get_bucket_ids", "unified_rankings", "unified_dataset", "kemeny_score", "parcons_partition", "parfront_partition",
+             "iterate", "dataset_eq"]
+
+
 def gen_case(rng, ctx):
+    if ctx.params.get("xlarge"):
+        from vf.monitors import large
+        case = large.gen_large(rng, profiles=[ctx.params["xlarge"]], schemes="S1 S1 S2", index=ctx.index)
+        if case["m"] > 100:
+            case["ds"] = case["ds"][:100]
+        ops = ["BioConsert"] + [rng.choice(LARGE_OPS) for _ in range(rng.randint(2, 4))] + ["get_bucket_ids", "get_positions"]
+        rng.shuffle(ops)
+        return {"ds": case["ds"], "scheme": case["scheme"], "ops": ops, "opseed": rng.randrange(10 ** 6), "dcls": "xlarge",
+                "cells": case["n"] * len(case["ds"])}
     gen.OUTLIER["n_only_up_to"] = 9
     cls, ds = gen.dataset(rng, classes="D1 D2 D3 D3 D4 D6 D7 D9 D11 D14 D14 D13 D17 D17 D16 D18", nmax=6, mmax=5)
     ds = libx.normalise_raw(ds)
@@ -63,6 +79,10 @@ def snap_dataset(d):
         "i2e": [(i, type(e.value).__name__, e.value) for i, e in d.mapping_id_elem.items()],
         "rankings": [[sorted((type(e.value).__name__, e.value) for e in b) for b in r.buckets] for r in rankings],
         "positions": [sorted((type(e.value).__name__, e.value, p) for e, p in r.positions.items()) for r in rankings],
+        # the two matrices every pairwise-based algorithm starts from (an algorithm that writes into a matrix kept by the
+        # Dataset changes what the next caller reads)
+        "positions_matrix": d.get_positions().tolist(),
+        "bucket_ids_matrix": d.get_bucket_ids().tolist(),
     }
 
 
@@ -185,6 +205,10 @@ def check_case(case, ctx):
     s = libx.mk_scheme(sch)
     other = libx.mk_dataset(list(reversed(ds)), "other")
     ctx.count("histories")
+    if case.get("dcls") == "xlarge":
+        ctx.count("xlarge_histories")
+        if case.get("cells", 0) >= 10000 and not ref.is_complete(ds):
+            ctx.count("xlarge_histories_incomplete_10000_cells")
     captured = []
     used = False
     kinds = set()
@@ -261,7 +285,10 @@ def check_case(case, ctx):
 def reach(counters, tier, info):
     k = 0.5 if tier == "quick" else 15
     out = []
-    for name, key, need in [("snapshots compared", "snapshots_compared", 10000 * k),
+    for name, key, need in [("histories on datasets of 63-1025 elements / up to 100 rankings", "xlarge_histories", 5 if tier == "quick" else 20),
+                            ("... incomplete, with at least 10 000 (element, ranking) cells", "xlarge_histories_incomplete_10000_cells",
+                             3 if tier == "quick" else 10),
+                            ("snapshots compared", "snapshots_compared", 10000 * k),
                             ("algorithm runs on objects already used by another operation", "algorithm_runs_on_used_objects", 1000 * k),
                             ("comparisons with fresh objects", "fresh_comparisons", 3000 * k),
                             ("repeatability checks", "repeat_checks", 1000 * k),
